@@ -1,6 +1,6 @@
 """C14 - String functions operate on characters (code points) and are mutually consistent."""
 import copy, os, re
-from lib import driver as D
+from lib import driver as D, machine as M
 
 MUTANTS = ["byteLength", "substringBytes", "indexOfBytes", "noBoundsCheck", "negLengthIsRest",
            "containsPrefixOnly", "replaceFirstOnly"]
@@ -68,6 +68,8 @@ def run(ctx):
     ctx.extra["cases_exhaustive"] = n_exhaustive
     ctx.extra["cases_sampled_len_5_to_12"] = n_long
     ctx.extra["patients_via_jsonformat"] = sum(1 for o in obs if o.get("res") == "jsonformat")
+    # programs of the whole abstract machine whose last step is one of this property's operations (lib/machine.py)
+    verdicts = M.extend(ctx, verdicts, by_id)
     return D.finish(
         ctx, verdicts, by_id, evaluations=len(obs),
         rule="every string over {a, b, U+00E9, U+20AC, U+1F600, U+0301} up to the tier's length x every function x every "
